@@ -1653,9 +1653,9 @@ def real_decl_stmt(text):
 def gen_mixed_stmt(rng, typedef=False):
     """`spec* T d1, ..., dn <end>`: every d a variable declarator with an optional initialiser or a function declarator with
     an optional exception specification; <end> is ';' or, behind a last function, a body / `= delete ;`"""
-    base = ('B', rng.choice(['Foo', 'Bar', 'T']), False, False)
+    base = ('B', rng.choice(['Foo', 'Bar', 'T', 'int', 'unsigned int', 'double', 'short', 'signed char']), False, False)
     pre = [rng.choice(['const', 'volatile'] if typedef else ['constexpr', 'extern', 'inline', 'static', 'const', 'volatile']) for _ in range(rng.choice([0, 0, 1, 2]))]
-    toks = pre + [base[1]]
+    toks = pre + base[1].split()
     if rng.random() < 0.15:
         toks.append(rng.choice(['const', 'volatile'] if typedef else ['const', 'volatile', 'static']))
     n = rng.choice([1, 2, 2, 3, 4])
